@@ -374,7 +374,7 @@ PROPS["C19"] = {
             "non-trivial = RelevantOnly or a ctl switch or hostile bytes logged or log/audit flags that differ",
     "essential": {"all": ["audit:On", "audit:Off", "audit:RelevantOnly", "records:0", "records:1", "format:JSON", "format:Native", "format:OCSF", "format:JsonLegacy",
                           "ctl-auditEngine", "ctl-auditLogParts:+", "ctl-auditLogParts:-", "interrupted", "would-be-interruption-status", "log-and-audit-flags-differ",
-                          "hostile-bytes-logged", "multi-value-rule", "concurrent:Serial/JSON", "concurrent:Serial/Native", "concurrent:Concurrent/JSON", "concurrent:HTTPS/JSON", "concurrent:HTTPS/Native"]},
+                          "hostile-bytes-logged", "multi-value-rule", "concurrent:Serial/JSON", "concurrent:Serial/Native", "concurrent:Concurrent/JSON", "concurrent:HTTPS/JSON", "concurrent:HTTPS/Native", "after-another-transaction"]},
     "assumptions": COMMON_ASSUME + [
         "ProcessLogging is called exactly once per transaction (precondition of the statement); RelevantOnly is always configured with a pattern",
         "native records are delimited by their own random boundary id: logged data that merely looks like a boundary is content",
@@ -421,7 +421,7 @@ PROPS["C20"] = {
             "failing unlink), file descriptors back to the baseline, a following transaction on the same WAF behaves normally; "
             "non-trivial = at least one aligned injection (faults) / a scenario with files stopped at or after the third call (early)",
     "essential": {"all": ["body:spill", "body:multipart", "uploads", "keep:On", "keep:RelevantOnly", "interrupted", "body-over-limit:Reject",
-                          "body-over-limit:ProcessPartial", "write-ends-exactly-at-limit", "core-scenario", "fault:unlinkat", "fault:openat", "fault:write"]},
+                          "body-over-limit:ProcessPartial", "write-ends-exactly-at-limit", "core-scenario", "fault:unlinkat", "fault:openat", "fault:write", "multipart-without-announced-boundary"]},
     "assumptions": COMMON_ASSUME + [
         "strace -e inject counts 'when=N' per traced thread; misaligned runs are detected after the fact and discarded (counted in coverage.extra)",
         "faults on the writability probe files (checkfsfile*) NewWAF creates are out of scope; a failed read at end of file is not a fault (no data)",
